@@ -62,44 +62,39 @@ theorem lands_in_innermost (evs : List Ev) (t n : Nat) (v : Val) (m : Merge) :
 /-- C10.fold (general form): after any sequence of records – of any types, with any merge functions, some of
 which may raise – a scope's value for type `ty` is the fold of `foldStep ty` over the records in recording
 order: the first record of the type is stored, each later one is merged with the supplied function, a
-raising merge leaves the value as it was, and (what the code does, by truthiness) a *falsy* stored value is
-replaced instead of merged. -/
+raising merge leaves the value as it was – whatever the truth values of the values involved. -/
 theorem fold (recs : List (Val × Merge)) (s : Store) (ty : Nat) :
     get (recordAll s recs) ty = recs.foldl (foldStep ty) (get s ty) :=
   get_recordAll recs s ty
 
-/-- C10.fold_left: for values that are truthy (every plain `State` instance) and total merge functions, the
-value of type `ty` in a fresh scope is `foldl merge v₀ [v₁ …]` over its records of that type in recording
-order, each step using the merge function supplied with that record – for **every** merge function. -/
-theorem fold_left (recs : List (Val × (Val → Val → Val))) (ty : Nat)
-    (htr : ∀ r ∈ recs, r.1.truthy = true ∧ ∀ a b, (r.2 a b).truthy = true) :
+/-- C10.fold_left: for total merge functions, the value of type `ty` in a fresh scope is `foldl merge v₀ [v₁ …]` over
+its records of that type in recording order, each step using the merge function supplied with that record – for **every**
+merge function and **every** value, truthy or falsy (a `State` class may define `__bool__` / `__len__`). -/
+theorem fold_left (recs : List (Val × (Val → Val → Val))) (ty : Nat) :
     get (recordAll [] (recs.map fun r => (r.1, total r.2))) ty
       = leftFold (recs.filter fun r => r.1.ty = ty) := by
   rw [get_recordAll]
   induction recs with
   | nil => rfl
   | cons r rest ih =>
-    have hr := htr r (by simp)
-    have hrest : ∀ r' ∈ rest, r'.1.truthy = true ∧ ∀ a b, (r'.2 a b).truthy = true :=
-      fun r' h' => htr r' (by simp [h'])
     simp only [List.map_cons, List.foldl_cons]
     have hg : Metrics.get [] ty = none := rfl
     by_cases hty : r.1.ty = ty
     · have h0 : foldStep ty (Metrics.get [] ty) (r.1, total r.2) = some r.1 := by
         simp [foldStep, hty, hg]
-      rw [h0, foldStep_total ty rest hrest r.1 hr.1]
+      rw [h0, foldStep_total ty rest r.1]
       simp [hty, leftFold]
     · have h0 : foldStep ty (Metrics.get [] ty) (r.1, total r.2) = Metrics.get [] ty := by
         simp [foldStep, hty]
-      rw [h0, ih hrest]
+      rw [h0, ih]
       simp [hty]
 
-/-- C10.fold_falsy_replaces: the code tests the stored value by truthiness; a stored falsy value is replaced
-by the new record, the merge function is not consulted. -/
-theorem fold_falsy_replaces (s : Store) (cur v : Val) (m : Merge)
-    (hg : get s v.ty = some cur) (hf : cur.truthy = false) :
-    record false s v m = .stored (put s v.ty v) := by
-  simp [record, hg, hf]
+/-- C10.fold_ignores_truthiness: a stored value is merged with the new record whatever its truth value – a falsy stored
+value is *not* silently replaced (the pinned code tested `if current := …get(…)` and did replace it). -/
+theorem fold_ignores_truthiness (s : Store) (cur v : Val) (m : Merge) (hg : get s v.ty = some cur) :
+    record false s v m = (match m cur v with | .ok r => .stored (put s v.ty r) | .raise e => .raised e) := by
+  simp only [record, hg, Bool.false_eq_true, ↓reduceIte]
+  cases m cur v <;> rfl
 
 /-- C10.view: the merged view of a scope is its own values with the merged views of the scopes registered
 under it folded in one after the other, in creation order; every received value `v` goes through
@@ -149,13 +144,11 @@ theorem never_raises (cur : Option (Bool × Store)) (v : Val) (m : Merge)
         · cases hr
         · split at hr
           · split at hr
-            · split at hr
-              · cases hr
-              · rename_i e' hme
-                cases hr
-                have := hm _ _ _ hme
-                cases this
             · cases hr
+            · rename_i e' hme
+              cases hr
+              have := hm _ _ _ hme
+              cases this
           · cases hr
 
 /-- C10.never_raises_run: at the program level, every `ctx.record` of an acting task appends exactly one
